@@ -22,13 +22,15 @@ var libDoc = map[string]string{
 	"strings.HasPrefix":  "SMT str.prefixof",
 	"strings.HasSuffix":  "SMT str.suffixof",
 	"strings.Contains":   "SMT str.contains",
+	"strings.Count":      "uninterpreted count over a range of the underlying string, with instantiated facts: non-negative, positive iff the range contains the separator, additive over adjacent ranges (one-character separators)",
+	"strings.LastIndex":  "uninterpreted last index over a range of the underlying string, with instantiated facts: -1 iff the range does not contain the separator, otherwise the separator stands there; over adjacent ranges the later range wins (one-character separators)",
 	"strings.Split":      "uninterpreted; result non-nil with len >= 1; len > 1 iff the string contains the (non-empty) separator",
 	"strings.TrimSpace":  "uninterpreted trim_space; identity on strings without leading/trailing white space is NOT assumed",
 	"strings.TrimLeft":   "uninterpreted trim_left(s, cutset)",
 	"strings.TrimSuffix": "if suffix then prefix without it else identity",
 	"slices.Contains":    "exists index below len with equal element (finite disjunction for literal slices)",
 	"slices.Delete":      "elements [i,j) removed, order kept (quantified description)",
-	"slices.DeleteFunc":  "uninterpreted result; every kept element fails the predicate is NOT assumed; len <= old len",
+	"slices.DeleteFunc":  "result no longer than the argument; when the predicate is a closure without effects (evaluated symbolically on an arbitrary element): the result is the order-preserving subsequence of exactly the elements that fail the predicate (index maps idx / inv as uninterpreted functions)",
 	"slices.Clone":       "same elements (value semantics)",
 	"maps.Clone":         "fresh reference with equal content; nil stays nil",
 	"maps.DeleteFunc":    "content of the map reference replaced by an unconstrained sub-map (has' implies has; values kept)",
@@ -85,6 +87,12 @@ func (x *Exec) libCall(st *State, fn *ssa.Function, args []Value, pos token.Pos,
 	case "strings.Contains":
 		k(st, []Value{App("str.contains", "Bool", T(0), T(1))})
 		return
+	case "strings.Count":
+		k(st, []Value{strRangeFn("str_count", T(0), T(1))})
+		return
+	case "strings.LastIndex":
+		k(st, []Value{strRangeFn("str_lastidx", T(0), T(1))})
+		return
 	case "strings.TrimSpace":
 		k(st, []Value{trimSpace(T(0))})
 		return
@@ -117,6 +125,7 @@ func (x *Exec) libCall(st *State, fn *ssa.Function, args []Value, pos token.Pos,
 		s := T(0)
 		r := x.freshVar("deleted", s.Sort)
 		st.assume(And(Cmp(">=", slLen(r), IntT(0)), Cmp("<=", slLen(r), slLen(s))))
+		x.deleteFuncModel(st, s, r, args[1])
 		if x.onDeleteFunc != nil {
 			x.onDeleteFunc(st, s, r, args[1])
 		}
@@ -249,6 +258,32 @@ func suffixOf(p, s *Term) *Term {
 	return App("str.suffixof", "Bool", p, s)
 }
 
+// strRangeFn: strings.Count / strings.LastIndex as an uninterpreted function of (underlying string,
+// separator, lo, hi): s[a:b] is the range [a,b) of s, any other string the range [0,len).  The facts
+// the function has are instantiated per term when a query is rendered (smt.go, strRangeAxioms).
+func strRangeFn(op string, t, sep *Term) *Term {
+	if t.Kind == KStr && sep.Kind == KStr {
+		if op == "str_count" {
+			return IntT(int64(strings.Count(t.S, sep.S)))
+		}
+		return IntT(int64(strings.LastIndex(t.S, sep.S)))
+	}
+	base, lo, hi := t, IntT(0), StrLen(t)
+	if t.Kind == KApp && t.Op == "str.substr" && len(t.Args) == 3 {
+		base, lo = t.Args[0], t.Args[1]
+		n := t.Args[2]
+		switch {
+		case lo.Kind == KInt && lo.I == 0:
+			hi = n
+		case n.Kind == KApp && n.Op == "-" && len(n.Args) == 2 && sameTerm(n.Args[1], lo):
+			hi = n.Args[0]
+		default:
+			hi = Add(lo, n)
+		}
+	}
+	return App(op, "Int", base, sep, lo, hi)
+}
+
 func trimSpace(s *Term) *Term {
 	if s.Kind == KStr {
 		return StrT(strings.TrimSpace(s.S))
@@ -316,6 +351,102 @@ func (x *Exec) slicesDelete(st *State, s, i, j *Term, pos token.Pos) *Term {
 		Implies(And(Cmp("<=", i, kq), Cmp("<", kq, Sub(slLen(s), d))), Eq(App("select", es, na, kq), App("select", es, slArr(s), Add(kq, d)))))
 	st.assume(Quant("forall", []*Term{kq}, body))
 	return mkSlice(s.Sort, na, Sub(slLen(s), d), slNil(s))
+}
+
+// closurePredTerm evaluates a closure of one argument, without effects, on the symbolic element
+// arg and returns its (boolean) result as one term: the paths' results merged with ite.  ok is false
+// when the closure is not a plain function of its argument and the captured values (effects, loops,
+// unmodelled calls, quantified path facts).
+func (x *Exec) closurePredTerm(cur *State, cv *ClosureV, arg *Term) (*Term, bool) {
+	if cv == nil || cv.fn == nil || len(cv.fn.Params) != 1 || cv.fn.Signature.Results().Len() != 1 {
+		return nil, false
+	}
+	sub := newExec(x.w, x.rootKey)
+	sub.pureMode = true
+	sub.maxPaths = 500
+	sub.fresh = x.fresh + 1000
+	sub.cellID = x.cellID + 1000
+	sub.pureCellBase = sub.cellID
+	sub.pureHeaps = map[string]*Term{}
+	st := newState()
+	for c, v := range cur.cells {
+		st.cells[c] = v // captured variables are read through their cells
+	}
+	for cs, h := range cur.heaps {
+		st.heaps[cs] = h
+	}
+	sub.runFunc(st, cv.fn, []Value{arg}, cv.binds, func(s2 *State, res []Value) {
+		if len(res) != 1 {
+			sub.pureFail = "result arity"
+			return
+		}
+		t := sub.term(res[0])
+		if t == nil {
+			sub.pureFail = "non-term result"
+			return
+		}
+		sub.pureRets = append(sub.pureRets, pureRet{pc: s2.pc.list(), val: t, vals: []*Term{t}})
+	})
+	x.fresh = sub.fresh
+	if sub.pureFail != "" || sub.outside != "" || len(sub.pureHeaps) > 0 {
+		return nil, false
+	}
+	var body *Term
+	for i := len(sub.pureRets) - 1; i >= 0; i-- {
+		r := sub.pureRets[i]
+		for _, c := range r.pc {
+			if hasQuant(c) {
+				return nil, false
+			}
+		}
+		if r.panics {
+			continue // a panicking predicate: the caller's own safety obligations cover it, no fact is derived for such elements
+		}
+		if body == nil {
+			body = r.val
+		} else {
+			body = Ite(And(r.pc...), r.val, body)
+		}
+	}
+	if body == nil {
+		return nil, false
+	}
+	for k := range sub.libUsed {
+		x.libUsed[k] = true
+	}
+	return body, true
+}
+
+// deleteFuncModel: slices.DeleteFunc(s, pred) = r, for a predicate that can be evaluated
+// symbolically: r is the subsequence of s, in order, of exactly the elements that fail pred.
+func (x *Exec) deleteFuncModel(st *State, s, r *Term, pred Value) {
+	cv, ok := pred.(*ClosureV)
+	if !ok {
+		return
+	}
+	es := elemSortOfSlice(x.w, s.Sort)
+	e := x.freshVar("delelem", es)
+	body, ok := x.closurePredTerm(st, cv, e)
+	if !ok {
+		return
+	}
+	P := func(t *Term) *Term { return subst(body, map[string]*Term{e.Op: t}) }
+	x.fresh++
+	idx := fmt.Sprintf("delidx!%d", x.fresh)
+	inv := fmt.Sprintf("delinv!%d", x.fresh)
+	j := VarT(fmt.Sprintf("j!q%d", x.fresh), "Int")
+	j2 := VarT(fmt.Sprintf("j2!q%d", x.fresh), "Int")
+	kk := VarT(fmt.Sprintf("k!q%d", x.fresh), "Int")
+	sAt := func(i *Term) *Term { return App("select", es, slArr(s), i) }
+	rAt := func(i *Term) *Term { return App("select", es, slArr(r), i) }
+	idxOf := func(i *Term) *Term { return App(idx, "Int", i) }
+	invOf := func(i *Term) *Term { return App(inv, "Int", i) }
+	st.assume(Quant("forall", []*Term{j}, Implies(And(Cmp("<=", IntT(0), j), Cmp("<", j, slLen(r))),
+		And(Cmp("<=", IntT(0), idxOf(j)), Cmp("<", idxOf(j), slLen(s)), Eq(rAt(j), sAt(idxOf(j))), Not(P(sAt(idxOf(j))))))))
+	st.assume(Quant("forall", []*Term{j, j2}, Implies(And(Cmp("<=", IntT(0), j), Cmp("<", j, j2), Cmp("<", j2, slLen(r))), Cmp("<", idxOf(j), idxOf(j2)))))
+	st.assume(Quant("forall", []*Term{kk}, Implies(And(Cmp("<=", IntT(0), kk), Cmp("<", kk, slLen(s)), Not(P(sAt(kk)))),
+		And(Cmp("<=", IntT(0), invOf(kk)), Cmp("<", invOf(kk), slLen(r)), Eq(idxOf(invOf(kk)), kk), Eq(rAt(invOf(kk)), sAt(kk))))))
+	st.assume(Eq(slNil(r), slNil(s)))
 }
 
 func (x *Exec) mapTypeOfFn(fn *ssa.Function, i int) *types.Map {
